@@ -145,7 +145,7 @@ def lbzx(variant='fast'):
         # the scheduler is never instrumented (see vsched.c)
         gcc = 'gcc' if cc == 'gcc' else 'clang'
         for f in ('vsched', 'explore'):
-            _run([gcc, '-O2', '-g', '-fno-pie', '-Wall'] + (['-DVS_TSAN'] if variant == 'tsan' else []) + (['-DVS_HB'] if variant == 'hbrace' else []) +
+            _run([gcc, '-O2', '-g', '-fno-pie', '-Wall'] + (['-DVS_TSAN'] if variant == 'tsan' else []) + (['-DVS_HB'] if variant == 'hbrace' else []) + (['-DVS_ASAN'] if variant == 'asan' else []) +
                  ['-I' + os.path.join(FW, 'lbzx'), '-c',
                   os.path.join(FW, 'lbzx', f + '.c'), '-o', os.path.join(d, f + '.o')])
         _run([cc, '-no-pie', '-o', exe + '.tmp', os.path.join(d, 'vsched.o'), os.path.join(d, 'explore.o')]
